@@ -142,7 +142,7 @@ def insertHtml (name : String) : M Unit := do
 /-- "insert a character" -/
 def insertChar (c : Nat) : M Unit := do
   -- (NON-STANDARD, Dev.charsRunUnit only: whitespace protected by `ofTTok` is restored here)
-  let c := if c ≥ 0x200000 then c - 0x200000 else c
+  let c := if (← get).dev.charsRunUnit && c ≥ 0x200000 then c - 0x200000 else c
   let loc ← appropriatePlace
   let p ← getNode loc.parent
   -- 3. if the adjusted insertion location is in a Document node, ignore the token
